@@ -1,4 +1,5 @@
 import Vorbis.Header
+import Vorbis.Proofs.Funcs
 /-!
 # C02 — packet-level decoder is memory-safe and terminates on arbitrary input
 
@@ -168,5 +169,38 @@ theorem C02_valuebook_has_dim (b : Book) (h : BookWF b) :
     b.lengthlist.size = b.entries.toNat ∧
     (b.maptype ≠ 0 → b.quantlist.size = (quantvalsOf b.maptype b.entries b.dim).toNat) :=
   ⟨h.mapDim, fun l hl => by have := h.lenMax l hl; omega, h.lenSize, h.qSize⟩
+
+
+/-! ### Function bodies regenerated from the source (tools/c2lean.py → Vorbis/Generated/Funcs.lean)
+
+The statements below are about the C functions *as they stand in /repo now*: the translator re-emits
+their bodies on every run, so an edit to `render_line` or `ov_ilog` re-opens these obligations. -/
+open Vorbis.CSem Vorbis.Generated.Funcs Vorbis.Proofs.Funcs in
+/-- **C02_render_line_indices** — floor 1's line renderer (lib/floor1.c `render_line`) stays inside its
+objects for every segment the decoder can hand it: end points `0 ≤ x0 < x1` (posts are sorted and pairwise
+distinct, C02_floor1_tables) and end values in `[0,255]` (the clamp in `floor1_inverse2`), any block
+length `n`. It returns (needs no more than `n - x0 + 1` loop rounds), every write is `d[i]` with
+`0 ≤ i < n` and every table read is `FLOOR1_fromdB_LOOKUP[j]` with `0 ≤ j ≤ 255` — by the Bresenham
+invariant `err + adx·carries = (x - x0)·ady`, which keeps `y` between `y0` and `y1`. -/
+theorem C02_render_line_indices (n x0 x1 y0 y1 : Int) (fuel : Nat) (hx0 : 0 ≤ x0) (hx : x0 < x1)
+    (hy0 : 0 ≤ y0 ∧ y0 ≤ 255) (hy1 : 0 ≤ y1 ∧ y1 ≤ 255) (hf : (n - x0).toNat < fuel) :
+    ∃ s', render_line.run n x0 x1 y0 y1 fuel = .norm s' ∧
+      ∀ a ∈ s'.tr, (a.arr = "d" ∧ 0 ≤ a.idx ∧ a.idx < n) ∨
+                   (a.arr = "FLOOR1_fromdB_LOOKUP" ∧ 0 ≤ a.idx ∧ a.idx ≤ 255) :=
+  RL.run_safe n x0 x1 y0 y1 fuel hx0 hx hy0 hy1 hf
+
+open Vorbis.CSem Vorbis.Generated.Funcs in
+/-- the hypotheses are met and the trace is not empty: a rising segment cut off by the block end -/
+example : ((render_line.run 6 2 9 10 200 8).state.tr.map (fun a => (a.arr, a.idx))) =
+    [("d", 5), ("FLOOR1_fromdB_LOOKUP", 91), ("d", 4), ("FLOOR1_fromdB_LOOKUP", 64),
+     ("d", 3), ("FLOOR1_fromdB_LOOKUP", 37), ("d", 2), ("FLOOR1_fromdB_LOOKUP", 10)] := by decide
+
+open Vorbis.CSem Vorbis.Generated.Funcs Vorbis.Proofs.Funcs in
+/-- **C02_ilog_is_the_source** — `ov_ilog` as it stands in lib/sharedbook.c returns, for every unsigned
+argument and within `ilog v + 1` loop rounds, the value of the model's `ilogNat` (the field widths the
+set-up and packet parsers of the model read with are the library's). -/
+theorem C02_ilog_is_the_source (v : Nat) (fuel : Nat) (hf : ilogNat v < fuel) :
+    (ov_ilog.run (v : Int) fuel).val? = some (ilogNat v : Int) :=
+  IL.run_eq v fuel hf
 
 end Vorbis.Props.C02
